@@ -219,6 +219,9 @@ func (e *Env) expr(x Expr) (*SVal, error) {
 	case *ECall:
 		return e.call(n)
 	case *EQuant:
+		if r, ok := e.frameRewrite(n); ok {
+			return r, nil
+		}
 		ne := e.clone()
 		var binds []string
 		var guards []Term
@@ -1163,4 +1166,137 @@ func balanced(s string) bool {
 		}
 	}
 	return d == 0
+}
+
+// frameRewrite turns the per-object frame shape
+//     forall x T :: x != e1 && x != e2 ==> x.f == old(x.f) && x.g == old(x.g)
+// into the quantifier-free array equations  F_f == store(store(old F_f, e1, F_f[e1]), e2, F_f[e2]) ...
+// (equivalent by extensionality; needs no instantiation by the solver).
+func (e *Env) frameRewrite(n *EQuant) (*SVal, bool) {
+	if !n.Forall || len(n.Vars) != 1 || e.old == nil {
+		return nil, false
+	}
+	v := n.Vars[0]
+	imp, ok := n.Body.(*EBinary)
+	var ante, cons Expr
+	if ok && imp.Op == "==>" {
+		ante, cons = imp.X, imp.Y
+	} else {
+		ante, cons = nil, n.Body
+	}
+	var excepts []Expr
+	var collectA func(x Expr) bool
+	collectA = func(x Expr) bool {
+		b, ok := x.(*EBinary)
+		if !ok {
+			return false
+		}
+		if b.Op == "&&" {
+			return collectA(b.X) && collectA(b.Y)
+		}
+		if b.Op != "!=" {
+			return false
+		}
+		if id, ok := b.X.(*EIdent); ok && id.Name == v.Name && !mentionsVar(b.Y, v.Name) {
+			excepts = append(excepts, b.Y)
+			return true
+		}
+		if id, ok := b.Y.(*EIdent); ok && id.Name == v.Name && !mentionsVar(b.X, v.Name) {
+			excepts = append(excepts, b.X)
+			return true
+		}
+		return false
+	}
+	if ante != nil && !collectA(ante) {
+		return nil, false
+	}
+	var fields []string
+	var collectC func(x Expr) bool
+	collectC = func(x Expr) bool {
+		b, ok := x.(*EBinary)
+		if !ok {
+			return false
+		}
+		if b.Op == "&&" {
+			return collectC(b.X) && collectC(b.Y)
+		}
+		if b.Op != "==" {
+			return false
+		}
+		l, ok1 := b.X.(*ESel)
+		r, ok2 := b.Y.(*ECall)
+		if !ok1 || !ok2 {
+			return false
+		}
+		lid, ok := l.X.(*EIdent)
+		if !ok || lid.Name != v.Name {
+			return false
+		}
+		rid, ok := r.Fun.(*EIdent)
+		if !ok || rid.Name != "old" || len(r.Args) != 1 {
+			return false
+		}
+		rs, ok := r.Args[0].(*ESel)
+		if !ok || rs.Name != l.Name {
+			return false
+		}
+		if ri, ok := rs.X.(*EIdent); !ok || ri.Name != v.Name {
+			return false
+		}
+		fields = append(fields, l.Name)
+		return true
+	}
+	if !collectC(cons) || len(fields) == 0 {
+		return nil, false
+	}
+	ty, err := e.resolveType(v.Type)
+	if err != nil || ty.Go == nil {
+		return nil, false
+	}
+	styp := deref(ty.Go)
+	su, ok := styp.Underlying().(*types.Struct)
+	if !ok {
+		return nil, false
+	}
+	if _, isPtr := ty.Go.Underlying().(*types.Pointer); !isPtr {
+		return nil, false
+	}
+	var exTerms []Term
+	for _, x := range excepts {
+		xv, err := e.expr(x)
+		if err != nil || xv.T.Sort != SInt {
+			return nil, false
+		}
+		exTerms = append(exTerms, xv.T)
+	}
+	var parts []Term
+	for _, f := range fields {
+		fi := -1
+		for i := 0; i < su.NumFields(); i++ {
+			if su.Field(i).Name() == f {
+				fi = i
+			}
+		}
+		if fi < 0 {
+			return nil, false
+		}
+		comp, _ := e.t.regField(styp, fi)
+		cur, old := e.c.get(e.st, comp), e.c.get(e.old, comp)
+		rhs := old
+		for _, x := range exTerms {
+			rhs = store(rhs, x, sel(cur, x))
+		}
+		parts = append(parts, eq(cur, rhs))
+	}
+	return &SVal{and(parts...), tyBool}, true
+}
+
+func mentionsVar(e Expr, name string) bool {
+	m := false
+	walkExpr(e, func(x Expr) {
+		if id, ok := x.(*EIdent); ok && id.Name == name {
+			m = true
+		}
+	})
+	return m
 }
